@@ -23,7 +23,7 @@
     value (a DAG); the decoder ignores the ids — size.Of is a tree sum over the
     unfolding (Properties/C20.v, theorems C20_graph_...). *)
 From Coq Require Import ZArith List Bool String.
-From Low Require Import Lib.Val Model.Size Spec.SizeSpec.
+From Low Require Import Lib.Val Model.Size Spec.SizeSpec Model.SizeFmt Model.SizeStat Spec.SizeStatSpec.
 Import ListNotations.
 Open Scope string_scope.
 Open Scope Z_scope.
@@ -116,6 +116,156 @@ Definition dec_top (v : val) : option (option value) :=
          end
   end.
 
+(** ---- labelled values (the full report of Stat).
+
+    A LABEL TREE runs parallel to the value tree:  lab = [x<type text>, [kid,...]],
+    kid = [x<edge text>, lab]: one kid per slice / array element (edge empty), per
+    map entry in the order of the value text (edge = fmt.Sprintf("%s", key)), per
+    struct field (edge = field name), one under a non-nil pointer / interface
+    (edge empty), none otherwise.  harness/c20.go computes it from the BUILT Go
+    value with reflect ([Type().String()], [Type().Field(i).Name]) and fmt. *)
+Fixpoint dec_l (v : val) (lab : val) {struct v} : option lvalue :=
+  match lab with
+  | VL [tyv; VL kids] =>
+    match as_zs tyv with
+    | None => None
+    | Some ty =>
+      match v with
+      | VL (VZ k :: rest) =>
+        if k =? 24 then
+          match rest, kids with
+          | [VL bs], [] => match opt_all (map as_z bs) with Some bs => Some (LString ty bs) | None => None end
+          | _, _ => None
+          end
+        else if k =? 23 then
+          match rest with
+          | [_; VZ nf; VL elems] | [_; VZ nf; VL elems; VZ _] =>
+            match (fix go (es ks : list val) {struct es} : option (list lvalue) :=
+                     match es, ks with
+                     | [], [] => Some []
+                     | e :: es', VL [_; lb] :: ks' =>
+                         match dec_l e lb with
+                         | Some x => match go es' ks' with Some r => Some (x :: r) | None => None end
+                         | None => None
+                         end
+                     | _, _ => None
+                     end) elems kids with
+            | None => None
+            | Some l =>
+                if nf =? 0 then Some (LSlice ty (Some l))
+                else match l with [] => Some (LSlice ty None) | _ => None end
+            end
+          | _ => None
+          end
+        else if k =? 17 then
+          match rest with
+          | [_; VL elems] =>
+            match (fix go (es ks : list val) {struct es} : option (list lvalue) :=
+                     match es, ks with
+                     | [], [] => Some []
+                     | e :: es', VL [_; lb] :: ks' =>
+                         match dec_l e lb with
+                         | Some x => match go es' ks' with Some r => Some (x :: r) | None => None end
+                         | None => None
+                         end
+                     | _, _ => None
+                     end) elems kids with
+            | None => None
+            | Some l => Some (LArray ty l)
+            end
+          | _ => None
+          end
+        else if k =? 21 then
+          match rest with
+          | [_; _; VZ nf; VL pairs] | [_; _; VZ nf; VL pairs; VZ _] =>
+            match (fix go (ps ks : list val) {struct ps} : option (list (list Z * value * lvalue)) :=
+                     match ps, ks with
+                     | [], [] => Some []
+                     | VL [a; b] :: ps', VL [kt; lb] :: ks' =>
+                         match as_zs kt, dec a, dec_l b lb with
+                         | Some kt, Some a, Some x =>
+                             match go ps' ks' with Some r => Some ((kt, a, x) :: r) | None => None end
+                         | _, _, _ => None
+                         end
+                     | _, _ => None
+                     end) pairs kids with
+            | None => None
+            | Some l => if nf =? 0 then Some (LMap ty l)
+                        else match l with [] => Some (LMap ty []) | _ => None end
+            end
+          | _ => None
+          end
+        else if (k =? 22) || (k =? 20) then
+          match rest with
+          | [_; VL o] | [_; VL o; VZ _] =>
+            match o, kids with
+            | [], [] => Some (if k =? 22 then LPtr ty None else LIface ty None)
+            | [x], [VL [_; lb]] =>
+                match dec_l x lb with
+                | Some x => Some (if k =? 22 then LPtr ty (Some x) else LIface ty (Some x))
+                | None => None
+                end
+            | _, _ => None
+            end
+          | _ => None
+          end
+        else if k =? 25 then
+          match rest with
+          | [VL fs] =>
+            match (fix go (es ks : list val) {struct es} : option (list (list Z * lvalue)) :=
+                     match es, ks with
+                     | [], [] => Some []
+                     | e :: es', VL [nm; lb] :: ks' =>
+                         match as_zs nm, dec_l e lb with
+                         | Some nm, Some x => match go es' ks' with Some r => Some ((nm, x) :: r) | None => None end
+                         | _, _ => None
+                         end
+                     | _, _ => None
+                     end) fs kids with
+            | None => None
+            | Some l => Some (LStruct ty l)
+            end
+          | _ => None
+          end
+        else
+          match rest, kids with
+          | [VZ _], [] => match skind_of k with Some s => Some (LScalar ty s) | None => None end
+          | _, _ => None
+          end
+      | _ => None
+      end
+    end
+  | _ => None
+  end.
+
+(** top level; the labelled value must erase to what [dec] reads from the same text *)
+Definition dec_ltop (v lab : val) : option (option lvalue) :=
+  match v with
+  | VL [VZ 0] => Some None
+  | _ => match dec_l v lab, dec v with
+         | Some x, Some y => if supportedb y then Some (Some x) else None
+         | _, _ => None
+         end
+  end.
+
+(** options: AvgOf, and the unit as [] (AvgUnit = 0) or [k] (AvgUnit = 2^k) *)
+Definition dec_opt_stat (avg unit : val) : option sopt :=
+  match avg, unit with
+  | VZ n, VL [] => Some {| avgOf := n; avgUnit := None |}
+  | VZ n, VL [VZ k] => Some {| avgOf := n; avgUnit := Some k |}
+  | _, _ => None
+  end.
+
+Definition stat_args (a : list val) : option (option lvalue * Z * Z * sopt) :=
+  match a with
+  | [v; lab; VZ depth; VZ maxItem; avg; unit] =>
+      match dec_ltop v lab, dec_opt_stat avg unit with
+      | Some d, Some o => Some (d, depth, maxItem, o)
+      | _, _ => None
+      end
+  | _ => None
+  end.
+
 Definition ops_C20 : list opdef := [
   (* size.Of(v): the number, P for a panic *)
   {| op_name := "size.Of";
@@ -157,4 +307,29 @@ Definition ops_C20 : list opdef := [
            | Some d => match spec_StatFirst d with None => VL [] | Some n => VL [VZ n] end
            | None => VBad end
        | _ => VBad end) |}
+;
+  (* size.Stat(v, depth, maxItem, Opt{AvgOf, AvgUnit}): the whole text, on the cases where Go's random
+     map order cannot show (no listed map with two or more entries has its entries listed) *)
+  {| op_name := "size.Stat/text";
+     op_run := fun a => match stat_args a with
+       | Some (d, depth, maxItem, o) =>
+           if det_text d depth maxItem
+           then match StatText d depth maxItem o with Some t => vzs t | None => VPanic end
+           else VBad
+       | None => VBad end;
+     op_spec := fun_spec (fun a => match stat_args a with
+       | Some (d, depth, maxItem, o) => vzs (spec_text d depth maxItem o)
+       | None => VBad end) |};
+  (* the same call, the lines of the report SORTED (byte order): on the cases where every map whose
+     entries are listed is listed completely, so that only the order of the blocks is random *)
+  {| op_name := "size.Stat/sorted";
+     op_run := fun a => match stat_args a with
+       | Some (d, depth, maxItem, o) =>
+           if det_lines d depth maxItem
+           then match StatLines d depth maxItem o with Some l => vzss (sort_lines l) | None => VPanic end
+           else VBad
+       | None => VBad end;
+     op_spec := fun_spec (fun a => match stat_args a with
+       | Some (d, depth, maxItem, o) => vzss (sort_lines (spec_lines d depth maxItem o))
+       | None => VBad end) |}
 ].
